@@ -14,9 +14,12 @@
 //! * `top`: global excludes, `<root>/.gitignore`, `<root>/a/.gitignore` (one git process per
 //!   configuration and disk layout);
 //! * `sub`: no global / root file; the two files are `<root>/<slot>/.gitignore` and
-//!   `<root>/<slot>/a/.gitignore`, and the queried paths live below `<slot>/`. Many slots
-//!   (= many configurations) share one work tree and one git process, which is what makes the
-//!   two-line and two-file families affordable.
+//!   `<root>/<slot>/a/.gitignore`, and the queried paths live below `<slot>/`. These are answered by
+//!   one long-lived `git check-ignore --stdin` process per worker thread; every configuration
+//!   gets slot directory names that the process has never seen (see `Streamer`), and a
+//!   sample of them is cross-checked against a fresh git process. Creating processes is the
+//!   dominant cost of this check, this is what makes the two-line / two-file families
+//!   affordable.
 //!
 //! Code under test, route 1 (all configurations): the walk the snapshotter performs, written
 //! out with the real `GitIgnoreFile::chain` / `matches_dir` / `matches_file`: the base ignores
@@ -145,8 +148,11 @@ fn layouts() -> Vec<Layout> {
 }
 
 /// The layouts whose answers count for a configuration.
-fn layouts_for(cfg: &Config) -> [usize; 4] {
-    if cfg.nested.is_some() { [L1N, L2, L3, L4] } else { [L1, L2, L3, L4] }
+/// (The quick tier leaves the depth-3 files out in arrangement top, where every layout costs
+/// a git process; arrangement sub always asks all of them.)
+fn layouts_for(cfg: &Config, all: bool) -> Vec<usize> {
+    let l1 = if cfg.nested.is_some() { L1N } else { L1 };
+    if all || cfg.sub { vec![l1, L2, L3, L4] } else { vec![l1, L2, L4] }
 }
 
 // ---------------------------------------------------------------------------------------
@@ -279,83 +285,142 @@ fn two_lines(sub: bool, pos: usize, set: &[String], out: &mut Vec<Config>) {
     }
 }
 
-/// The enumerated families, in order, with a name for the coverage statement.
+/// Lines of the top-arrangement single-line family beyond the quick tier's hand-picked
+/// ones: every token once, plus the combinations the root prefix handling is about.
+fn topq_lines() -> Vec<String> {
+    let mut v: Vec<String> = TOKENS.iter().map(|t| t.to_string()).collect();
+    for l in ["/a", "a/", "!a", "a/b", "/a/b/", "!a/b", "a/*", "a/**", "**/b", "/*/", "a ", ""] {
+        v.push(l.to_string());
+    }
+    dedup(v)
+}
+
+/// A 32-line subset of `mini` for the quick tier's pair families.
+fn mini32(ls: &LineSets) -> Vec<String> {
+    ls.mini.iter().filter(|l| !l.contains("a/**") && !l.contains("**/b/")).take(32).cloned().collect()
+}
+
+fn strings(v: &[&str]) -> Vec<String> {
+    v.iter().map(|s| s.to_string()).collect()
+}
+
+/// The enumerated families, in order, with a name for the coverage statement. Arrangement
+/// top costs one git process per configuration and layout, arrangement sub none (long-lived
+/// process), hence the sizes: process creation costs 5 ms on a quiet machine and seconds on
+/// a loaded one.
 fn families(thorough: bool, ls: &LineSets) -> Vec<(&'static str, Vec<Config>)> {
     let mut fams: Vec<(&'static str, Vec<Config>)> = vec![];
+    let four = strings(&["a", "!a", "/a", "a/"]);
+    let two = strings(&["a", "!a"]);
+    let topq = topq_lines();
+    let m32 = mini32(ls);
     // A: one file with one line, every position of both arrangements
     // (+ the same line without a final newline in the root file)
-    let a_set: &[String] = if thorough { &ls.full } else { &ls.core };
     let mut a = vec![];
-    for pos in 0..3 {
-        for l in a_set {
-            a.push(Config::single(false, pos, content(&[l])));
+    if thorough {
+        for l in &ls.core {
+            a.push(Config::single(false, 1, content(&[l])));
         }
-    }
-    for l in a_set {
-        if !l.is_empty() {
+        for pos in [0, 2] {
+            for l in &topq {
+                a.push(Config::single(false, pos, content(&[l])));
+            }
+        }
+        for l in &ls.tiny {
             a.push(Config::single(false, 1, l.clone()));
         }
+    } else {
+        for l in ["a", "/a", "a/", "!a", "a/b", "/*/", "*", "\\!a", "a ", "**/b"] {
+            a.push(Config::single(false, 1, content(&[l])));
+        }
+        for l in ["a", "/a/", "a/b"] {
+            a.push(Config::single(false, 0, content(&[l])));
+        }
+        for l in ["a", "/b"] {
+            a.push(Config::single(false, 2, content(&[l])));
+        }
+        a.push(Config::single(false, 1, "a".to_string()));
     }
+    a.push(Config::single(false, 1, "a\r".to_string()));
     fams.push(("A-top:one-file-one-line", a));
     let mut a_sub = vec![];
-    for pos in 1..3 {
-        for l in &ls.full {
-            a_sub.push(Config::single(true, pos, content(&[l])));
+    for l in &ls.full {
+        a_sub.push(Config::single(true, 1, content(&[l])));
+    }
+    for l in if thorough { &ls.full } else { &ls.core } {
+        a_sub.push(Config::single(true, 2, content(&[l])));
+    }
+    for l in if thorough { &ls.core } else { &ls.tiny } {
+        if !l.is_empty() {
+            a_sub.push(Config::single(true, 1, l.clone()));
         }
     }
-    fams.push(("A-sub:one-file-one-line(full)", a_sub));
+    a_sub.push(Config::single(true, 1, "a\r".to_string()));
+    fams.push(("A-sub:one-file-one-line", a_sub));
     // B: one file with two lines
     let mut b = vec![];
-    for pos in 0..3 {
-        two_lines(false, pos, if thorough && pos == 1 { &ls.mini } else { &ls.tiny }, &mut b);
+    if thorough {
+        two_lines(false, 1, &ls.tiny, &mut b);
+        two_lines(false, 0, &two, &mut b);
+        two_lines(false, 2, &two, &mut b);
+    } else {
+        b.push(Config::single(false, 1, content(&["a", "!a"])));
+        b.push(Config::single(false, 1, content(&["!a", "a"])));
+        b.push(Config::single(false, 0, content(&["*", "!a"])));
     }
     fams.push(("B-top:one-file-two-lines", b));
     let mut b_sub = vec![];
-    two_lines(true, 1, if thorough { &ls.core } else { &ls.mini }, &mut b_sub);
-    two_lines(true, 2, &ls.mini, &mut b_sub);
+    two_lines(true, 1, if thorough { &ls.core } else { &m32 }, &mut b_sub);
+    two_lines(true, 2, if thorough { &ls.mini } else { &ls.tiny }, &mut b_sub);
     fams.push(("B-sub:one-file-two-lines", b_sub));
     // C: two files with one line each
     let mut c = vec![];
     if thorough {
-        pairs(false, 0, 1, &ls.mini, &ls.mini, &mut c);
-        pairs(false, 1, 2, &ls.mini, &ls.mini, &mut c);
-        pairs(false, 0, 2, &ls.mini, &ls.mini, &mut c);
-    } else {
-        pairs(false, 0, 1, &ls.mini, &ls.tiny, &mut c);
-        pairs(false, 0, 1, &ls.tiny, &ls.mini, &mut c);
+        pairs(false, 0, 1, &ls.tiny, &ls.tiny, &mut c);
         pairs(false, 1, 2, &ls.tiny, &ls.tiny, &mut c);
-        pairs(false, 0, 2, &ls.tiny, &ls.tiny, &mut c);
+        pairs(false, 0, 2, &four, &four, &mut c);
+    } else {
+        pairs(false, 0, 1, &two, &two, &mut c);
+        for (p1, p2, l1, l2) in [(0, 1, "/a", "!a"), (0, 1, "!a", "/a"), (1, 2, "a", "!a"), (1, 2, "a/", "!b"), (0, 2, "a", "!a")] {
+            let mut cfg = Config::single(false, p1, content(&[l1]));
+            cfg.set(p2, content(&[l2]));
+            c.push(cfg);
+        }
     }
     fams.push(("C-top:two-files-one-line-each", c));
     let mut c_sub = vec![];
-    let c_set: &[String] = if thorough { &ls.core } else { &ls.mini };
+    let c_set: &[String] = if thorough { &ls.core } else { &m32 };
     pairs(true, 1, 2, c_set, c_set, &mut c_sub);
     fams.push(("C-sub:two-files-one-line-each", c_sub));
     // D: three files with one line each (arrangement top only)
     let mut d = vec![];
-    let (d_set, d_mid): (&[String], &[String]) = if thorough { (&ls.tiny, &ls.mini) } else { (&ls.tiny, &ls.tiny) };
-    for l0 in d_set {
-        for l1 in d_mid {
-            for l2 in d_set {
-                let mut cfg = Config::single(false, 0, content(&[l0]));
-                cfg.set(1, content(&[l1]));
-                cfg.set(2, content(&[l2]));
-                d.push(cfg);
+    let triples: Vec<(String, String, String)> = if thorough {
+        let mut t = vec![];
+        for l0 in &four {
+            for l1 in &four {
+                for l2 in &four {
+                    t.push((l0.clone(), l1.clone(), l2.clone()));
+                }
             }
         }
+        t
+    } else {
+        [("a", "!a", "a"), ("*", "!a/", "!b")].iter().map(|(x, y, z)| (x.to_string(), y.to_string(), z.to_string())).collect()
+    };
+    for (l0, l1, l2) in &triples {
+        let mut cfg = Config::single(false, 0, content(&[l0]));
+        cfg.set(1, content(&[l1]));
+        cfg.set(2, content(&[l2]));
+        d.push(cfg);
     }
     fams.push(("D-top:three-files-one-line-each", d));
     // E: two files with two lines each
     let mut e = vec![];
-    let e_set: Vec<String> = if thorough {
-        ls.tiny.clone()
-    } else {
-        ["a", "!a", "a/", "*"].iter().map(|s| s.to_string()).collect()
-    };
-    for l1 in &e_set {
-        for l2 in &e_set {
-            for l3 in &e_set {
-                for l4 in &e_set {
+    let e_set: &[String] = if thorough { &ls.tiny } else { &four };
+    for l1 in e_set {
+        for l2 in e_set {
+            for l3 in e_set {
+                for l4 in e_set {
                     let mut cfg = Config::single(true, 1, content(&[l1, l2]));
                     cfg.set(2, content(&[l3, l4]));
                     e.push(cfg);
@@ -411,27 +476,37 @@ fn snapshot_family(thorough: bool, ls: &LineSets) -> Vec<Config> {
 // ---------------------------------------------------------------------------------------
 // the reference: git check-ignore in scratch work trees
 
-/// Number of configurations of arrangement `sub` answered by one git process.
-const SLOTS: usize = 32;
+/// Wall time spent waiting for git, summed over threads (reported in the evidence).
+static GIT_NANOS: std::sync::atomic::AtomicU64 = std::sync::atomic::AtomicU64::new(0);
 
-fn slot_dir(slot: usize, layout: &Layout) -> String {
-    format!("s{slot:02}{}", layout.name)
+/// A `git check-ignore --stdin` process that stays alive (arrangement sub). Creating a process
+/// is by far the most expensive operation of this check; a streaming check-ignore answers and
+/// flushes path by path. git keeps what it has read of a directory only while consecutive
+/// queries stay below that directory, and nothing is ever kept for a directory it has not
+/// seen: every configuration is therefore installed under directory names that were never
+/// used before in the life of the process (the layout trees are renamed, not rebuilt).
+struct Streamer {
+    child: std::process::Child,
+    stdin: std::process::ChildStdin,
+    stdout: std::io::BufReader<std::process::ChildStdout>,
 }
 
 struct GitEnv {
     dir: PathBuf,
     /// arrangement top: one work tree per layout
     trees: Vec<PathBuf>,
-    /// arrangement sub: one work tree with SLOTS x layouts directories
-    batch_tree: PathBuf,
-    /// queries of the batch tree in the order of its query file: (slot, layout, query with full path)
-    batch_queries: Vec<(usize, usize, Query)>,
+    /// arrangement sub: one work tree that holds one directory per layout
+    sub_tree: PathBuf,
+    /// current name of the directory of each layout in `sub_tree`
+    sub_names: Vec<String>,
+    counter: u64,
+    stream: Option<Streamer>,
     global_file: PathBuf,
     empty_file: PathBuf,
     home: PathBuf,
 }
 
-#[derive(Clone, Debug, Default)]
+#[derive(Clone, Debug, Default, PartialEq, Eq)]
 struct GitAnswer {
     ignored: bool,
     source: String,
@@ -440,15 +515,16 @@ struct GitAnswer {
 }
 
 fn git_command(home: &Path) -> Command {
-    let mut cmd = Command::new("git");
+    let mut cmd = Command::new("/usr/bin/git");
     cmd.env_clear()
-        .env("PATH", "/usr/local/bin:/usr/bin:/bin")
+        .env("PATH", "/usr/bin:/bin")
         .env("HOME", home)
         .env("XDG_CONFIG_HOME", home.join("xdg"))
         .env("GIT_CONFIG_GLOBAL", "/dev/null")
         .env("GIT_CONFIG_SYSTEM", "/dev/null")
         .env("GIT_CONFIG_NOSYSTEM", "1")
         .env("GIT_CEILING_DIRECTORIES", home)
+        .env("GIT_FLUSH", "1")
         .env("LC_ALL", "C");
     cmd
 }
@@ -467,13 +543,17 @@ fn materialize(root: &Path, layout: &Layout) {
     }
 }
 
-fn write_queries<'a>(path: &Path, queries: impl Iterator<Item = &'a Query>) {
+fn query_bytes<'a>(prefix: Option<&str>, queries: impl Iterator<Item = &'a Query>) -> Vec<u8> {
     let mut q = vec![];
     for query in queries {
+        if let Some(p) = prefix {
+            q.extend_from_slice(p.as_bytes());
+            q.push(b'/');
+        }
         q.extend_from_slice(query.path.as_bytes());
         q.push(0);
     }
-    std::fs::write(path, q).unwrap_or_else(|e| setup_fail("write queries", e.to_string()));
+    q
 }
 
 fn put(path: PathBuf, content: Option<&String>) {
@@ -486,72 +566,93 @@ fn put(path: PathBuf, content: Option<&String>) {
     }
 }
 
+fn answer_from_fields(f: &[&[u8]], expect_path: &[u8]) -> GitAnswer {
+    if f[3] != expect_path {
+        machinery_failure(&format!(
+            "git check-ignore answered for {:?} where {:?} was asked",
+            String::from_utf8_lossy(f[3]),
+            String::from_utf8_lossy(expect_path)
+        ));
+    }
+    let pattern = String::from_utf8_lossy(f[2]).to_string();
+    GitAnswer {
+        ignored: !pattern.is_empty() && !pattern.starts_with('!'),
+        source: String::from_utf8_lossy(f[0]).to_string(),
+        line: String::from_utf8_lossy(f[1]).to_string(),
+        pattern,
+    }
+}
+
+const CHECK_IGNORE_ARGS: [&str; 6] = ["check-ignore", "--no-index", "-v", "-n", "-z", "--stdin"];
+
 impl GitEnv {
-    fn new(dir: &Path, layouts: &[Layout], slots: usize) -> GitEnv {
+    fn new(dir: &Path, layouts: &[Layout]) -> GitEnv {
         std::fs::create_dir_all(dir).unwrap_or_else(|e| setup_fail("mkdir", e.to_string()));
         let home = dir.join("home");
         std::fs::create_dir_all(&home).unwrap_or_else(|e| setup_fail("mkdir home", e.to_string()));
+        // what `git init --template=` creates, written by hand (the self-test validates it)
         let init = |t: &Path| {
-            std::fs::create_dir_all(t).unwrap_or_else(|e| setup_fail("mkdir tree", e.to_string()));
-            let out = git_command(&home)
-                .args(["init", "-q", "--template="])
-                .arg(t)
-                .output()
-                .unwrap_or_else(|e| setup_fail("spawn git init", e.to_string()));
-            if !out.status.success() {
-                setup_fail("git init", String::from_utf8_lossy(&out.stderr).to_string());
+            let g = t.join(".git");
+            for d in ["objects/info", "objects/pack", "refs/heads", "refs/tags"] {
+                std::fs::create_dir_all(g.join(d)).unwrap_or_else(|e| setup_fail("mkdir .git", e.to_string()));
             }
+            std::fs::write(g.join("HEAD"), b"ref: refs/heads/master\n")
+                .unwrap_or_else(|e| setup_fail("write HEAD", e.to_string()));
+            std::fs::write(
+                g.join("config"),
+                b"[core]\n\trepositoryformatversion = 0\n\tfilemode = true\n\tbare = false\n\tlogallrefupdates = true\n",
+            )
+            .unwrap_or_else(|e| setup_fail("write config", e.to_string()));
         };
         let mut trees = vec![];
         for l in layouts {
             let t = dir.join(l.name);
             init(&t);
             materialize(&t, l);
-            write_queries(&dir.join(format!("{}.queries", l.name)), l.queries.iter());
+            std::fs::write(dir.join(format!("{}.queries", l.name)), query_bytes(None, l.queries.iter()))
+                .unwrap_or_else(|e| setup_fail("write queries", e.to_string()));
             trees.push(t);
         }
-        let batch_tree = dir.join("batch");
-        let mut batch_queries = vec![];
-        if slots > 0 {
-            init(&batch_tree);
-            for slot in 0..slots {
-                for (li, l) in layouts.iter().enumerate() {
-                    let sd = slot_dir(slot, l);
-                    materialize(&batch_tree.join(&sd), l);
-                    for q in &l.queries {
-                        batch_queries.push((slot, li, query(&format!("{sd}/{}", q.path), q.is_dir)));
-                    }
-                }
-            }
-            write_queries(&dir.join("batch.queries"), batch_queries.iter().map(|(_, _, q)| q));
+        let sub_tree = dir.join("sub");
+        init(&sub_tree);
+        let mut sub_names = vec![];
+        for l in layouts {
+            let name = format!("s0{}", l.name);
+            materialize(&sub_tree.join(&name), l);
+            sub_names.push(name);
         }
         let empty_file = dir.join("empty-excludes");
         std::fs::write(&empty_file, b"").unwrap_or_else(|e| setup_fail("write", e.to_string()));
         GitEnv {
             dir: dir.to_path_buf(),
             trees,
-            batch_tree,
-            batch_queries,
+            sub_tree,
+            sub_names,
+            counter: 0,
+            stream: None,
             global_file: dir.join("global-excludes"),
             empty_file,
             home,
         }
     }
 
-    fn run_git(&self, tree: &Path, excludes: &Path, query_file: &Path, n_queries: usize) -> Vec<GitAnswer> {
-        let stdin = std::fs::File::open(query_file)
+    /// One git process: `stdin_bytes` are the NUL separated paths.
+    fn run_git(&self, tree: &Path, excludes: &Path, stdin_file: &Path, expect: &[u8]) -> Vec<GitAnswer> {
+        let t0 = std::time::Instant::now();
+        let stdin = std::fs::File::open(stdin_file)
             .unwrap_or_else(|e| machinery_failure(&format!("open queries: {e}")));
         let out = git_command(&self.home)
             .arg("-C")
             .arg(tree)
             .arg("-c")
             .arg(format!("core.excludesFile={}", excludes.display()))
-            .args(["check-ignore", "--no-index", "-v", "-n", "-z", "--stdin"])
+            .args(CHECK_IGNORE_ARGS)
             .stdin(Stdio::from(stdin))
             .stdout(Stdio::piped())
             .stderr(Stdio::piped())
             .output()
             .unwrap_or_else(|e| machinery_failure(&format!("cannot run git: {e}")));
+        GIT_NANOS.fetch_add(t0.elapsed().as_nanos() as u64, std::sync::atomic::Ordering::Relaxed);
         let code = out.status.code().unwrap_or(-1);
         if code != 0 && code != 1 {
             machinery_failure(&format!(
@@ -563,25 +664,16 @@ impl GitEnv {
         if fields.last().is_some_and(|f| f.is_empty()) {
             fields.pop();
         }
-        if fields.len() != 4 * n_queries {
+        let paths: Vec<&[u8]> = expect.split(|b| *b == 0).filter(|p| !p.is_empty()).collect();
+        if fields.len() != 4 * paths.len() {
             machinery_failure(&format!(
-                "git check-ignore printed {} fields for {n_queries} queries ({})",
+                "git check-ignore printed {} fields for {} queries ({})",
                 fields.len(),
-                query_file.display()
+                paths.len(),
+                stdin_file.display()
             ));
         }
-        (0..n_queries)
-            .map(|i| {
-                let f = &fields[4 * i..4 * i + 4];
-                let pattern = String::from_utf8_lossy(f[2]).to_string();
-                GitAnswer {
-                    ignored: !pattern.is_empty() && !pattern.starts_with('!'),
-                    source: String::from_utf8_lossy(f[0]).to_string(),
-                    line: String::from_utf8_lossy(f[1]).to_string(),
-                    pattern,
-                }
-            })
-            .collect()
+        paths.iter().enumerate().map(|(i, p)| answer_from_fields(&fields[4 * i..4 * i + 4], p)).collect()
     }
 
     /// Arrangement top: install the files of `cfg` in the work tree of layout `li` and ask.
@@ -595,33 +687,101 @@ impl GitEnv {
         } else if cfg.nested.is_some() {
             machinery_failure("layout without directory a used for a nested configuration");
         }
-        self.run_git(
-            tree,
-            &self.global_file,
-            &self.dir.join(format!("{}.queries", layout.name)),
-            layout.queries.len(),
-        )
+        let expect = query_bytes(None, layout.queries.iter());
+        self.run_git(tree, &self.global_file, &self.dir.join(format!("{}.queries", layout.name)), &expect)
     }
 
-    /// Arrangement sub: install up to SLOTS configurations and ask once. Returns the answers
-    /// in the order of `batch_queries`.
-    fn ask_batch(&self, cfgs: &[&Config], layouts: &[Layout], slots: usize) -> Vec<GitAnswer> {
-        if cfgs.len() > slots {
-            machinery_failure("batch larger than the number of slots");
+    /// Arrangement sub: moves the tree of layout `li` to a directory name that was never used
+    /// before and installs the files of `cfg` there. Returns the directory name.
+    fn install_sub(&mut self, cfg: &Config, layouts: &[Layout], li: usize) -> String {
+        self.counter += 1;
+        let name = format!("s{}{}", self.counter, layouts[li].name);
+        std::fs::rename(self.sub_tree.join(&self.sub_names[li]), self.sub_tree.join(&name))
+            .unwrap_or_else(|e| machinery_failure(&format!("rename slot: {e}")));
+        self.sub_names[li] = name.clone();
+        let sd = self.sub_tree.join(&name);
+        put(sd.join(".gitignore"), cfg.root.as_ref());
+        if layouts[li].a_is_dir {
+            put(sd.join("a/.gitignore"), cfg.nested.as_ref());
+        } else if cfg.nested.is_some() {
+            machinery_failure("layout without directory a used for a nested configuration");
         }
-        for slot in 0..slots {
-            let cfg = cfgs.get(slot).copied();
-            for l in layouts {
-                let sd = self.batch_tree.join(slot_dir(slot, l));
-                put(sd.join(".gitignore"), cfg.and_then(|c| c.root.as_ref()));
-                if l.a_is_dir {
-                    put(sd.join("a/.gitignore"), cfg.and_then(|c| c.nested.as_ref()));
+        name
+    }
+
+    /// Arrangement sub through a fresh git process (replay, cross-check of the streamer).
+    fn ask_sub_oneshot(&mut self, cfg: &Config, layouts: &[Layout], li: usize) -> (String, Vec<GitAnswer>) {
+        let name = self.install_sub(cfg, layouts, li);
+        let q = query_bytes(Some(&name), layouts[li].queries.iter());
+        let qf = self.dir.join("oneshot.queries");
+        std::fs::write(&qf, &q).unwrap_or_else(|e| machinery_failure(&format!("write queries: {e}")));
+        let answers = self.run_git(&self.sub_tree, &self.empty_file, &qf, &q);
+        (name, answers)
+    }
+
+    /// Arrangement sub through the long-lived process.
+    fn ask_sub_stream(&mut self, cfg: &Config, layouts: &[Layout], li: usize) -> (String, Vec<GitAnswer>) {
+        use std::io::BufRead as _;
+        use std::io::Write as _;
+        let name = self.install_sub(cfg, layouts, li);
+        let t0 = std::time::Instant::now();
+        if self.stream.is_none() {
+            let mut child = git_command(&self.home)
+                .arg("-C")
+                .arg(&self.sub_tree)
+                .arg("-c")
+                .arg(format!("core.excludesFile={}", self.empty_file.display()))
+                .args(CHECK_IGNORE_ARGS)
+                .stdin(Stdio::piped())
+                .stdout(Stdio::piped())
+                .stderr(Stdio::inherit())
+                .spawn()
+                .unwrap_or_else(|e| machinery_failure(&format!("cannot run git: {e}")));
+            let stdin = child.stdin.take().unwrap();
+            let stdout = std::io::BufReader::new(child.stdout.take().unwrap());
+            self.stream = Some(Streamer { child, stdin, stdout });
+            STREAMERS.fetch_add(1, std::sync::atomic::Ordering::Relaxed);
+        }
+        let q = query_bytes(Some(&name), layouts[li].queries.iter());
+        let st = self.stream.as_mut().unwrap();
+        // the request (< 4 KiB) and the answer (< 32 KiB) both fit into a pipe buffer
+        st.stdin
+            .write_all(&q)
+            .and_then(|_| st.stdin.flush())
+            .unwrap_or_else(|e| machinery_failure(&format!("the streaming git process went away: {e}")));
+        let mut answers = Vec::with_capacity(layouts[li].queries.len());
+        let mut fields: Vec<Vec<u8>> = Vec::with_capacity(4);
+        for path in q.split(|b| *b == 0).filter(|p| !p.is_empty()) {
+            fields.clear();
+            for _ in 0..4 {
+                let mut buf = vec![];
+                let n = st
+                    .stdout
+                    .read_until(0, &mut buf)
+                    .unwrap_or_else(|e| machinery_failure(&format!("reading from git: {e}")));
+                if n == 0 || buf.pop() != Some(0) {
+                    machinery_failure("the streaming git process closed its output");
                 }
+                fields.push(buf);
             }
+            let refs: Vec<&[u8]> = fields.iter().map(|f| f.as_slice()).collect();
+            answers.push(answer_from_fields(&refs, path));
         }
-        self.run_git(&self.batch_tree, &self.empty_file, &self.dir.join("batch.queries"), self.batch_queries.len())
+        GIT_NANOS.fetch_add(t0.elapsed().as_nanos() as u64, std::sync::atomic::Ordering::Relaxed);
+        (name, answers)
+    }
+
+    fn shutdown(&mut self) {
+        if let Some(st) = self.stream.take() {
+            let Streamer { mut child, stdin, stdout } = st;
+            drop(stdin);
+            drop(stdout);
+            let _ = child.wait();
+        }
     }
 }
+
+static STREAMERS: std::sync::atomic::AtomicU64 = std::sync::atomic::AtomicU64::new(0);
 
 // ---------------------------------------------------------------------------------------
 // jj: the walk of the snapshotter over the real GitIgnoreFile
@@ -766,14 +926,29 @@ fn walk_case(cfg: &Config, rel_path: &str, is_dir: bool) -> Value {
 }
 
 /// `rel_path`: the path relative to the root of the arrangement (without the slot directory).
-fn compare(cfg: &Config, rel_path: &str, is_dir: bool, git: &GitAnswer, jj: bool, jj_pruned: bool) -> Option<Mismatch> {
+fn compare(cfg: &Config, q: &Query, rel_path: &str, git: &GitAnswer, jj: bool, jj_pruned: bool) -> Option<Mismatch> {
     if git.ignored == jj {
         return None;
     }
+    let is_dir = q.is_dir;
     let dir = if jj { "jj-ignores-git-does-not" } else { "git-ignores-jj-does-not" };
     let kind = if is_dir { "dir" } else { "file" };
     let via = if jj_pruned { "/via-parent-dir" } else { "" };
-    let signature = format!("C28/{dir}/{kind}{via}/git-rule:{}", line_form(&git.pattern));
+    let mut signature = format!("C28/{dir}/{kind}{via}/git-rule:{}", line_form(&git.pattern));
+    // Attribution of one known cause: an ignore file whose last line ends in CR without LF.
+    // git appends a newline to the buffer before parsing, so the CR is a CRLF line ending for
+    // git; if jj agrees with git as soon as the missing LF is added, the mismatch is that.
+    let fix = |o: &Option<String>| o.as_ref().map(|c| if c.ends_with('\r') { format!("{c}\n") } else { c.clone() });
+    let fixed = Config { sub: cfg.sub, global: fix(&cfg.global), root: fix(&cfg.root), nested: fix(&cfg.nested) };
+    if fixed != *cfg {
+        let slot = (q.path.len() > rel_path.len()).then(|| &q.path[..q.path.len() - rel_path.len() - 1]);
+        if let Ok(Ok(chains)) = catch(|| build_chains(&fixed, slot))
+            && let Ok((jj_fixed, _)) = catch(|| jj_ignored(&chains, q))
+            && jj_fixed == git.ignored
+        {
+            signature = "C28/ignore-file-ends-with-CR-without-LF".to_string();
+        }
+    }
     let message = format!(
         "{} {:?}: git check-ignore says {} (deciding pattern {:?} from {}:{}), jj's snapshot walk says {}{}; configuration: {}",
         if is_dir { "directory" } else { "file" },
@@ -988,19 +1163,19 @@ fn judge(
     if pruned {
         tally.jj_pruned_by_parent += 1;
     }
-    if let Some(m) = compare(cfg, rel_path, q.is_dir, g, jj, pruned) {
+    if let Some(m) = compare(cfg, q, rel_path, g, jj, pruned) {
         out.push(m);
     }
 }
 
-fn run_top(cfg: &Config, env: &GitEnv, layouts: &[Layout], tally: &mut Tally) -> Vec<Mismatch> {
+fn run_top(cfg: &Config, env: &GitEnv, layouts: &[Layout], all_layouts: bool, tally: &mut Tally) -> Vec<Mismatch> {
     let chains = match chain_failure(cfg, catch(|| build_chains(cfg, None))) {
         Ok(c) => c,
         Err(m) => return vec![m],
     };
     let mut out = vec![];
     let mut pc = PerConfig { any_ignored: false, any_negative: false };
-    for li in layouts_for(cfg) {
+    for li in layouts_for(cfg, all_layouts) {
         let answers = env.ask_top(cfg, layouts, li);
         tally.git_processes += 1;
         for (q, g) in layouts[li].queries.iter().zip(&answers) {
@@ -1013,44 +1188,57 @@ fn run_top(cfg: &Config, env: &GitEnv, layouts: &[Layout], tally: &mut Tally) ->
     out
 }
 
-fn run_batch(cfgs: &[&Config], env: &GitEnv, layouts: &[Layout], slots: usize, tally: &mut Tally) -> Vec<Mismatch> {
-    let answers = env.ask_batch(cfgs, layouts, slots);
-    tally.git_processes += 1;
+#[derive(Clone, Copy, PartialEq, Eq)]
+enum SubMode {
+    Stream,
+    Oneshot,
+    /// both, and the two must agree (validates the long-lived process)
+    Both,
+}
+
+fn run_sub(cfg: &Config, env: &mut GitEnv, layouts: &[Layout], mode: SubMode, tally: &mut Tally) -> Vec<Mismatch> {
     let mut out = vec![];
-    let mut cur: Option<(usize, usize, Chains)> = None;
-    let mut pcs: Vec<PerConfig> = cfgs.iter().map(|_| PerConfig { any_ignored: false, any_negative: false }).collect();
-    let mut failed: BTreeSet<usize> = BTreeSet::new();
-    for ((slot, li, q), g) in env.batch_queries.iter().zip(&answers) {
-        let Some(cfg) = cfgs.get(*slot).copied() else {
-            // unused slot: there is no ignore file, git must not report anything
-            if !g.pattern.is_empty() {
-                machinery_failure("git reported a pattern in a slot without ignore files");
+    let mut pc = PerConfig { any_ignored: false, any_negative: false };
+    for li in layouts_for(cfg, true) {
+        let (name, answers) = match mode {
+            SubMode::Stream => env.ask_sub_stream(cfg, layouts, li),
+            SubMode::Oneshot => {
+                tally.git_processes += 1;
+                env.ask_sub_oneshot(cfg, layouts, li)
             }
-            continue;
-        };
-        if !layouts_for(cfg).contains(li) || failed.contains(slot) {
-            continue;
-        }
-        let sd = slot_dir(*slot, &layouts[*li]);
-        if !cur.as_ref().is_some_and(|(s, l, _)| s == slot && l == li) {
-            match chain_failure(cfg, catch(|| build_chains(cfg, Some(&sd)))) {
-                Ok(c) => cur = Some((*slot, *li, c)),
-                Err(m) => {
-                    out.push(m);
-                    failed.insert(*slot);
-                    continue;
+            SubMode::Both => {
+                tally.git_processes += 1;
+                let (n1, a1) = env.ask_sub_oneshot(cfg, layouts, li);
+                let (n2, a2) = env.ask_sub_stream(cfg, layouts, li);
+                let strip = |n: &str, a: &[GitAnswer]| -> Vec<GitAnswer> {
+                    a.iter()
+                        .map(|x| GitAnswer { source: x.source.strip_prefix(n).unwrap_or(&x.source).to_string(), ..x.clone() })
+                        .collect()
+                };
+                if strip(&n1, &a1) != strip(&n2, &a2) {
+                    machinery_failure(&format!(
+                        "the long-lived git check-ignore process and a fresh one disagree on {}",
+                        cfg.show()
+                    ));
                 }
+                (n2, a2)
             }
+        };
+        let chains = match chain_failure(cfg, catch(|| build_chains(cfg, Some(&name)))) {
+            Ok(c) => c,
+            Err(m) => {
+                out.push(m);
+                break;
+            }
+        };
+        for (q, g) in layouts[li].queries.iter().zip(&answers) {
+            let full = query(&format!("{name}/{}", q.path), q.is_dir);
+            judge(cfg, &chains, &full, &q.path, g, tally, &mut pc, &mut out);
         }
-        let chains = &cur.as_ref().unwrap().2;
-        let rel = &q.path[sd.len() + 1..];
-        judge(cfg, chains, q, rel, g, tally, &mut pcs[*slot], &mut out);
     }
-    for pc in &pcs {
-        tally.configs += 1;
-        tally.configs_with_ignored += pc.any_ignored as u64;
-        tally.configs_with_negative += pc.any_negative as u64;
-    }
+    tally.configs += 1;
+    tally.configs_with_ignored += pc.any_ignored as u64;
+    tally.configs_with_negative += pc.any_negative as u64;
     out
 }
 
@@ -1067,11 +1255,15 @@ fn replay(ctx: &Ctx, case: &Value, layouts: &[Layout]) {
         }
         return;
     }
-    let env = GitEnv::new(&ctx.scratch().join("git-replay"), layouts, 1);
+    let mut env = GitEnv::new(&ctx.scratch().join("git-replay"), layouts);
     let mut tally = Tally::default();
     let want_path = case["path"].as_str().map(|s| s.to_string());
     let want_dir = case["is_dir"].as_bool();
-    let found = if cfg.sub { run_batch(&[&cfg], &env, layouts, 1, &mut tally) } else { run_top(&cfg, &env, layouts, &mut tally) };
+    let found = if cfg.sub {
+        run_sub(&cfg, &mut env, layouts, SubMode::Oneshot, &mut tally)
+    } else {
+        run_top(&cfg, &env, layouts, true, &mut tally)
+    };
     for m in found {
         let same_query = match (&want_path, want_dir) {
             (Some(p), Some(d)) => m.case["path"] == json!(p) && m.case["is_dir"] == json!(d),
@@ -1106,7 +1298,7 @@ fn main() {
     let threads = rayon::current_num_threads().max(1);
     let envs: Vec<Mutex<GitEnv>> = (0..threads + 1)
         .into_par_iter()
-        .map(|i| Mutex::new(GitEnv::new(&ctx.scratch().join(format!("git{i}")), &layouts, SLOTS)))
+        .map(|i| Mutex::new(GitEnv::new(&ctx.scratch().join(format!("git{i}")), &layouts)))
         .collect();
     let env_for_thread = || {
         let i = rayon::current_thread_index().map(|i| i % threads).unwrap_or(threads);
@@ -1115,9 +1307,11 @@ fn main() {
     eprintln!("[C28] scratch work trees ready, {:.1}s", ctx.elapsed_s());
 
     // self-test of the reference driver: configurations whose answers are fixed by git's
-    // documentation; a wrong answer means the driver (not jj) is broken.
+    // documentation; a wrong answer means the driver (not jj) is broken. The sub arrangement
+    // is asked through the long-lived process and through fresh processes, alternating two
+    // configurations with opposite answers, so that a stale cache would show.
     {
-        let env = env_for_thread();
+        let mut env = env_for_thread();
         let cfg = Config { sub: false, global: None, root: Some("a/\n!b\n".into()), nested: None };
         let l4 = env.ask_top(&cfg, &layouts, L4);
         let l2 = env.ask_top(&cfg, &layouts, L2);
@@ -1136,23 +1330,34 @@ fn main() {
         if !ok {
             machinery_failure("the git check-ignore driver does not give the documented answers on the self-test (top)");
         }
-        let sub = Config { sub: true, global: None, root: Some("/a\n".into()), nested: None };
-        let other = Config { sub: true, global: None, root: Some("b\n".into()), nested: Some("!b\n".into()) };
-        let ans = env.ask_batch(&[&sub, &other], &layouts, SLOTS);
-        let find = |slot: usize, li: usize, p: &str| {
-            let full = format!("{}/{p}", slot_dir(slot, &layouts[li]));
-            let i = env.batch_queries.iter().position(|(_, _, q)| q.path == full).unwrap();
-            ans[i].clone()
-        };
-        let ok = find(0, L1, "a").ignored
-            && !find(0, L2, "b/a").ignored
-            && find(0, L2, "a/b").ignored
-            && find(1, L2, "ab/b").ignored
-            && !find(1, L2, "a/b").ignored
-            && find(1, L4, "b/b/b").ignored
-            && !find(2, L1, "a").ignored;
-        if !ok {
-            machinery_failure("the git check-ignore driver does not give the documented answers on the self-test (sub)");
+        let one = Config { sub: true, global: None, root: Some("/a\n".into()), nested: None };
+        let two = Config { sub: true, global: None, root: Some("b\n".into()), nested: Some("!b\n".into()) };
+        for round in 0..3 {
+            for stream in [true, false] {
+                let mut ask = |cfg: &Config, li: usize| {
+                    if stream { env.ask_sub_stream(cfg, &layouts, li).1 } else { env.ask_sub_oneshot(cfg, &layouts, li).1 }
+                };
+                let a2 = ask(&one, L2);
+                let b2 = ask(&two, L2);
+                let b4 = ask(&two, L4);
+                let a1 = ask(&one, L1);
+                let ok = find(&a1, L1, "a").ignored
+                    && !find(&a1, L1, "b").ignored
+                    && !find(&a2, L2, "b/a").ignored
+                    && find(&a2, L2, "a/b").ignored
+                    && find(&b2, L2, "ab/b").ignored
+                    && !find(&b2, L2, "a/b").ignored
+                    && find(&b2, L2, "a/b").pattern == "!b"
+                    && !find(&b2, L2, "b/a").pattern.is_empty()
+                    && find(&b4, L4, "b/b/b").ignored
+                    && !find(&b4, L4, "ab").ignored;
+                if !ok {
+                    machinery_failure(&format!(
+                        "the git check-ignore driver does not give the documented answers on the self-test (sub, round {round}, {})",
+                        if stream { "long-lived process" } else { "fresh process" }
+                    ));
+                }
+            }
         }
     }
 
@@ -1161,46 +1366,38 @@ fn main() {
     let samples = Samples::new(8);
     let mut total = Tally::default();
     let mut family_counts = serde_json::Map::new();
+    let cross_checked = Counter::new();
     for (name, cfgs) in &fams {
-        let is_sub = cfgs.first().is_some_and(|c| c.sub);
-        let tally = if is_sub {
-            let chunks: Vec<Vec<&Config>> = cfgs.chunks(SLOTS).map(|c| c.iter().collect()).collect();
-            chunks
-                .par_iter()
-                .fold(Tally::default, |mut tally, chunk| {
-                    let env = env_for_thread();
-                    for m in run_batch(chunk, &env, &layouts, SLOTS, &mut tally) {
-                        ctx.violation(&m.signature, m.message, m.case);
+        let tally = cfgs
+            .par_iter()
+            .enumerate()
+            .fold(Tally::default, |mut tally, (i, cfg)| {
+                let mut env = env_for_thread();
+                let before = tally.git_ignored;
+                let found = if cfg.sub {
+                    // every 389th configuration is also asked through a fresh git process
+                    let mode = if i % 389 == 0 { SubMode::Both } else { SubMode::Stream };
+                    if mode == SubMode::Both {
+                        cross_checked.inc();
                     }
-                    tally
-                })
-                .reduce(Tally::default, |mut a, b| {
-                    a.merge(b);
-                    a
-                })
-        } else {
-            cfgs.par_iter()
-                .fold(Tally::default, |mut tally, cfg| {
-                    let env = env_for_thread();
-                    let before = tally.git_ignored;
-                    for m in run_top(cfg, &env, &layouts, &mut tally) {
-                        ctx.violation(&m.signature, m.message, m.case);
-                    }
-                    if tally.git_ignored > before + 10 && samples.wants_more() {
-                        samples.offer(|| cfg.to_json());
-                    }
-                    tally
-                })
-                .reduce(Tally::default, |mut a, b| {
-                    a.merge(b);
-                    a
-                })
-        };
+                    run_sub(cfg, &mut env, &layouts, mode, &mut tally)
+                } else {
+                    run_top(cfg, &env, &layouts, ctx.thorough(), &mut tally)
+                };
+                for m in found {
+                    ctx.violation(&m.signature, m.message, m.case);
+                }
+                if tally.git_ignored > before + 10 && samples.wants_more() && i % 7 == 3 {
+                    samples.offer(|| cfg.to_json());
+                }
+                tally
+            })
+            .reduce(Tally::default, |mut a, b| {
+                a.merge(b);
+                a
+            });
         if tally.configs != cfgs.len() as u64 {
             machinery_failure(&format!("family {name}: {} of {} configurations were evaluated", tally.configs, cfgs.len()));
-        }
-        if let Some(c) = cfgs.get(cfgs.len() / 2) {
-            samples.offer(|| c.to_json());
         }
         family_counts.insert(
             name.to_string(),
@@ -1208,7 +1405,16 @@ fn main() {
                    "git_processes": tally.git_processes}),
         );
         total.merge(tally);
-        eprintln!("[C28] family {name}: {} configurations, {:.1}s", cfgs.len(), ctx.elapsed_s());
+        eprintln!(
+            "[C28] family {name}: {} configurations, {} git processes so far, {:.1}s (cumulative git wait {:.1}s)",
+            cfgs.len(),
+            total.git_processes,
+            ctx.elapsed_s(),
+            GIT_NANOS.load(std::sync::atomic::Ordering::Relaxed) as f64 / 1e9
+        );
+    }
+    for e in &envs {
+        e.lock().unwrap().shutdown();
     }
 
     // route 2
@@ -1316,6 +1522,9 @@ fn main() {
             ("queries_per_configuration".to_string(), json!(n_queries)),
             ("git_version".to_string(), json!(version)),
             ("git_processes".to_string(), json!(total.git_processes)),
+            ("git_long_lived_processes".to_string(), json!(STREAMERS.load(std::sync::atomic::Ordering::Relaxed))),
+            ("sub_configurations_cross_checked_with_a_fresh_git_process".to_string(), json!(cross_checked.get())),
+            ("git_wait_s_summed_over_threads".to_string(), json!(GIT_NANOS.load(std::sync::atomic::Ordering::Relaxed) / 1_000_000_000)),
             ("git_says_ignored".to_string(), json!(total.git_ignored)),
             ("git_negative_rule_decides".to_string(), json!(total.git_negative_decides)),
             ("ignored_because_parent_dir_pruned".to_string(), json!(total.jj_pruned_by_parent)),
